@@ -9,10 +9,12 @@ import Imeta.Driver.Enums
 import Imeta.Driver.Codec
 import Imeta.Driver.Hash
 import Imeta.Driver.Jpeg
+import Imeta.Driver.Exif
+import Imeta.Driver.Png
 open Imeta
 
 def handlers : List (List String → Option String) :=
-  [Tiff.handle, ImageType.handle, EnumsDrv.handle, CodecDrv.handle, HashDrv.handle, JpegDrv.handle]
+  [Tiff.handle, ImageType.handle, EnumsDrv.handle, CodecDrv.handle, HashDrv.handle, JpegDrv.handle, ExifDrv.handle, PngDrv.handle]
 
 def dispatch (line : String) : String :=
   let toks := (line.trimAscii.toString.splitOn " ").filter (· ≠ "")
